@@ -64,8 +64,8 @@ def groups():
     gs.append(Group('gen_dispatchLoop', ['C01', 'C16', 'C03', 'C07'], 'dispatchLoop (Compiler/src/gen.cpp)', 'c_dispatchLoop',
                     _gen_build('gen_disp.c', 'dispatchLoop', redirect='dispatchLoop', replace=REPL_REC), timeout=900,
                     note='callees fetchVariableRegister, dispatchValue, dispatchVoid replaced by their contracts'))
-    for fn, props in (('dispatchWhile', ['C01', 'C03', 'C07']), ('dispatchGoto', ['C01', 'C03']), ('dispatchMark', ['C01', 'C03', 'C07']),
-                      ('dispatchAssign', ['C01']), ('dispatchArgs', ['C03', 'C01']), ('dispatchIf', ['C01', 'C03'])):
+    for fn, props in (('dispatchWhile', ['C01', 'C03', 'C07']), ('dispatchGoto', ['C01', 'C03', 'C04']), ('dispatchMark', ['C01', 'C03', 'C07', 'C04']),
+                      ('dispatchAssign', ['C01']), ('dispatchArgs', ['C03', 'C01']), ('dispatchIf', ['C01', 'C03', 'C04'])):
         gs.append(Group('gen_' + fn, props, f'{fn} (Compiler/src/gen.cpp)', 'c_' + fn,
                         _gen_build('gen_disp.c', fn, redirect=fn, replace=(REPL_REC if fn == 'dispatchWhile' else REPL_ASSIGN if fn == 'dispatchAssign' else REPL) + (['w_dispatchArgs_rec/c_dispatchArgs_callee'] if fn == 'dispatchArgs' else [])),
                         timeout=900, note='callees fetchTemporary, fetchVariableRegister, dispatchValue, dispatchVoid replaced by their contracts; the mark table holds at most 4 marks'))
